@@ -16,6 +16,7 @@
 -/
 import Galaxy.Lemmas.Total
 import Galaxy.Lemmas.TotalWalk
+import Galaxy.Generated.Lockset
 
 namespace Galaxy.Props.C18
 open Galaxy.Total
@@ -384,5 +385,29 @@ example : syncPodIPInIPSet [compilePolicy false true [] [true] [1] [1] true] = .
 theorem syncPodIPInIPSet_no_nil_counter :
     syncPolicyG syncGuardsPreFix (compilePolicy false true [] [true] [1] [1] true) = .error .nilDeref ∧
       syncPolicyG syncGuardsPreFix (compilePolicy true false [true] [] [1] [1] false) = .error .nilDeref := by decide
+
+/-! ### 12. "do not keep a lock held": lock balance on every path -/
+
+/-- C18 "… and do not keep a lock held": in the lock table regenerated from the current source (every `Lock`/`RLock`
+of the analysed packages, and every keyed lock taken through a wrapper which returns the unlock closure — `lockPod`,
+`LockDpPool`, `LockPoolFunc`: `defer p.lockPod(..)()`, or `u := p.lockPod(..)` with `u()` / `defer u()`), every
+acquisition is released EXACTLY ONCE on every path to every exit of its function: by one deferred release XOR by an
+explicit release on each path — no path leaves with the lock held (`leaked`: an early `return` between lock and
+unlock), and no path releases twice or without holding (`unheld`: an explicit unlock in addition to a deferred one
+ends in the unrecoverable `fatal error: sync: unlock of unlocked mutex`). -/
+theorem lock_released_exactly_once_on_every_path :
+    Galaxy.Lockset.balanced Galaxy.Generated.Lockset.balance = true := by decide
+
+/-- Non-vacuity: the table is not empty and contains the per-pod and per-pool keyed locks of Filter / Bind / unbind /
+Release / resync. -/
+example : Galaxy.Generated.Lockset.balance.length ≥ 40 ∧
+    (Galaxy.Generated.Lockset.balance.filter
+      (fun b => b.lock == Galaxy.Generated.Lockset.L_keyed_schedulerplugin_lockPod)).length ≥ 6 := by decide
+
+/-- The checker has teeth: a leaked and a doubly released acquisition are both rejected. -/
+theorem lock_balance_counter :
+    Galaxy.Lockset.balanced [⟨0, 0, .excl, .leaked, "early return between lock and unlock"⟩] = false ∧
+    Galaxy.Lockset.balanced [⟨0, 0, .excl, .deferred, ""⟩, ⟨0, 0, .excl, .unheld, "explicit unlock + deferred unlock"⟩] = false := by
+  decide
 
 end Galaxy.Props.C18
